@@ -525,6 +525,14 @@ func (g *Gen) intBin(op string, a, b string, t types.Type, bConst *big.Int) (str
 	}
 	switch op {
 	case "+":
+		if !ii.signed && g.fc != nil && strings.HasPrefix(g.fc.NoOverflow, "unsigned") {
+			// `assume no-overflow unsigned: ...` - unsigned additions of this unit are assumed not to wrap (listed
+			// as an assumption): the sum is the mathematical one and lies in the type's range
+			raw := "(+ " + a + " " + b + ")"
+			g.addAssumption("no-overflow (unsigned additions do not wrap): " + g.fc.NoOverflow)
+			g.assume(g.curReach, fmt.Sprintf("(<= %s %s)", raw, intConstStr(hi)))
+			return raw, ""
+		}
 		return wrap("(+ " + a + " " + b + ")")
 	case "-":
 		return wrap("(- " + a + " " + b + ")")
